@@ -117,6 +117,17 @@ func (s *State) RootBlock() *ssa.BasicBlock {
 	return s.stack[0].blk
 }
 
+// BlockOf is the block the innermost frame executing fn is currently in (nil if fn is not
+// on the control stack).
+func (s *State) BlockOf(fn *ssa.Function) *ssa.BasicBlock {
+	for i := len(s.stack) - 1; i >= 0; i-- {
+		if s.stack[i].fc.fn == fn {
+			return s.stack[i].blk
+		}
+	}
+	return nil
+}
+
 // Depth is the number of frames on the control stack.
 func (s *State) Depth() int { return len(s.stack) }
 
@@ -772,6 +783,20 @@ func (e *Engine) StaticCallee(fc *FrameCtx, c *ssa.CallCommon) (*ssa.Function, *
 		case *ssa.ChangeType:
 			v = x.X
 			continue
+		case *ssa.Parameter:
+			// a function value handed in by the (inlined) caller: `h.run(func() {…})`
+			if c := e.ctxOf(fc, x.Parent()); c != nil && c.args != nil {
+				idx := -1
+				for j, p := range c.fn.Params {
+					if p == x {
+						idx = j
+					}
+				}
+				if idx >= 0 && idx < len(c.args) {
+					v, fc = c.args[idx], c.parent
+					continue
+				}
+			}
 		case *ssa.UnOp:
 			// load of a single-store local cell holding a closure
 			if x.Op == token.MUL {
